@@ -634,6 +634,10 @@ impl FunctionCompiler<'_> {
         // run all the defers from here, backwards to (and including) the one we are breaking out of
         self.run_defers_until(label);
 
+        // a value of a zero-sized type (e.g. an empty struct) can still have an address,
+        // but the exit of a zero-sized block doesn't take an argument
+        let value = value.filter(|_| !self.builder.block_params(exit_block).is_empty());
+
         if let Some(value) = value {
             self.builder
                 .ins()
@@ -1438,10 +1442,16 @@ impl FunctionCompiler<'_> {
                         self.defer_stack.push(frame);
                     }
 
-                    if let Some(value) = value {
+                    // (see `break_to_label`: a zero-sized value can still have an address)
+                    let value_arg =
+                        value.filter(|_| !self.builder.block_params(exit_block).is_empty());
+
+                    if let Some(value) = value_arg {
                         self.builder
                             .ins()
                             .jump(exit_block, &[BlockArg::Value(value)]);
+                    } else if value.is_some() {
+                        self.builder.ins().jump(exit_block, &[]);
                     } else if tail_expr.is_none() && !expr_ty.can_be_created_from_nothing() {
                         // we know this block somehow reaches it's end (because we already checked it's !no_eval)
                         //
